@@ -6,7 +6,12 @@
    generated command reads its dependencies' outputs ([ideal_reads]: declared order of [td_deps],
    and per dependency the declared order of its [td_outs]).  The change key is order-free in deps
    and outs.  [cmd_faithful] states the modelling fact "equal label + equal command text => equal
-   salt, behaviour, check flag and equal read shape" for the visited snapshots. *)
+   salt, behaviour, check flag and equal read shape" for the visited snapshots.  The no-cache tag is
+   not covered by the key either: [cmd_faithful] also asks that a target keeping label and command text
+   keeps the tag (see [key_faithful]).  No-cache targets are otherwise admitted anywhere in the graph;
+   what they contribute to the keys of their dependants (GetNoCacheOutputHash: the digest of the sorted,
+   comma-joined "<definition>=<digest>" items) decodes uniquely when no output definition of a no-cache
+   target contains a comma: [outdefs_comma_free]. *)
 From Coq Require Import List Ascii Bool Arith.
 From Grog Require Import Str Label HashKey Build Build_ideal.
 Import ListNotations.
@@ -57,7 +62,7 @@ Definition shape_eqb (a b : shape_entry) : bool :=
 (* what the command text determines in the generated workspaces *)
 Definition cmd_agree (s1 : sources) (t1 : tdef) (s2 : sources) (t2 : tdef) : Prop :=
   td_salt t1 = td_salt t2 /\ td_beh t1 = td_beh t2 /\ td_check t1 = td_check t2 /\
-  dep_shape s1 t1 = dep_shape s2 t2.
+  dep_shape s1 t1 = dep_shape s2 t2 /\ td_nocache t1 = td_nocache t2.
 
 Definition cmd_faithful (V : list sources) : Prop :=
   forall s1 s2 t1 t2, In s1 V -> In s2 V ->
@@ -66,7 +71,8 @@ Definition cmd_faithful (V : list sources) : Prop :=
 
 Definition cmd_agreeb (s1 : sources) (t1 : tdef) (s2 : sources) (t2 : tdef) : bool :=
   str_eqb (td_salt t1) (td_salt t2) && beh_eqb (td_beh t1) (td_beh t2) &&
-  Bool.eqb (td_check t1) (td_check t2) && list_eqb shape_eqb (dep_shape s1 t1) (dep_shape s2 t2).
+  Bool.eqb (td_check t1) (td_check t2) && list_eqb shape_eqb (dep_shape s1 t1) (dep_shape s2 t2) &&
+  Bool.eqb (td_nocache t1) (td_nocache t2).
 
 Definition node_agreeb (s1 s2 : sources) (n1 n2 : ndef) : bool :=
   match n1, n2 with
@@ -95,8 +101,25 @@ Fixpoint nodup_strb (l : list str) : bool :=
 
 Definition labels_uniqueb (s : sources) : bool := nodup_strb (map printed (s_nodes s)).
 
+(* no declared output of a no-cache target has a ',' in its path (the items of the no-cache output hash
+   are joined with ','; "file::" / "dir::" contain none) *)
+Definition comma_free (p : str) : bool := negb (mem_ch ch_comma p).
+
+Definition node_comma_free (n : ndef) : bool :=
+  match n with
+  | NTarget t => negb (td_nocache t) || forallb (fun o => comma_free (o_path o)) (td_outs t)
+  | NAlias _ _ => true
+  end.
+
+Definition outdefs_comma_free (s : sources) : Prop :=
+  forall t, In (NTarget t) (s_nodes s) -> td_nocache t = true ->
+    forall o, In o (td_outs t) -> ~ In ch_comma (o_path o).
+
+Definition outdefs_comma_freeb (s : sources) : bool := forallb node_comma_free (s_nodes s).
+
 (* the structural guard on the snapshots of a history, as one boolean *)
-Definition snaps_okb (V : list sources) : bool := cmd_faithfulb V && forallb labels_uniqueb V.
+Definition snaps_okb (V : list sources) : bool :=
+  cmd_faithfulb V && forallb labels_uniqueb V && forallb outdefs_comma_freeb V.
 
 (* ------------------------------------------------------------------ the digest *)
 (* lower-case hex digit *)
@@ -118,13 +141,14 @@ Fixpoint pf_enc (s : str) : str :=
 
 (* ------------------------------------------------------------------ for the "each conjunct is needed" witnesses *)
 (* [cmd_faithfulb] with some conjuncts switched off (false = the conjunct is not asked for) *)
-Record cmask := mkMask { m_salt : bool; m_beh : bool; m_check : bool; m_shape : bool }.
+Record cmask := mkMask { m_salt : bool; m_beh : bool; m_check : bool; m_shape : bool; m_nc : bool }.
 
 Definition cmd_agreeb_m (m : cmask) (s1 : sources) (t1 : tdef) (s2 : sources) (t2 : tdef) : bool :=
   (negb (m_salt m) || str_eqb (td_salt t1) (td_salt t2)) &&
   (negb (m_beh m) || beh_eqb (td_beh t1) (td_beh t2)) &&
   (negb (m_check m) || Bool.eqb (td_check t1) (td_check t2)) &&
-  (negb (m_shape m) || list_eqb shape_eqb (dep_shape s1 t1) (dep_shape s2 t2)).
+  (negb (m_shape m) || list_eqb shape_eqb (dep_shape s1 t1) (dep_shape s2 t2)) &&
+  (negb (m_nc m) || Bool.eqb (td_nocache t1) (td_nocache t2)).
 
 Definition node_agreeb_m (m : cmask) (s1 s2 : sources) (n1 n2 : ndef) : bool :=
   match n1, n2 with
